@@ -257,7 +257,13 @@ func runCheck(prop, tier string, only []string, writeEvidence bool) int {
 				nReplay++
 				rf := &replayFile{Property: prop, Harness: h.Name, Pkg: g.Pkg, Files: g.Files, Params: params, Mode: h.Replay,
 					Kind: v.Kind, Msg: v.Msg, Labels: v.Labels, Signature: v.Signature, Where: v.Where, Values: v.Values}
-				rf.Reproduced, rf.Output = replayNative(rf)
+				if v.Kind == "ambient" {
+					// observed directly in the executed code (a call into os/syscall/... on a
+					// feasible path); there is nothing further to confirm natively
+					rf.Reproduced, rf.Output = true, "direct observation by the interpreter's call monitor (no native replay)"
+				} else {
+					rf.Reproduced, rf.Output = replayNative(rf)
+				}
 				path := filepath.Join(opt.verif, "evidence", "replays", fmt.Sprintf("%s-%s-%d.json", prop, h.Name, i+1))
 				jb, _ := json.MarshalIndent(rf, "", " ")
 				os.WriteFile(path, jb, 0o644)
